@@ -2,7 +2,7 @@
 
 use crate::engine::*;
 use crate::gen_expr::{GenCfg, WidthProfile, gen_case};
-use crate::props::c01::{assignments, show_env};
+use crate::props::c01::show_env;
 use crate::refeval::{self, Env, children, op_name, reachable};
 use crate::refval::Val;
 use crate::smtref::{self, CmdKind, Profile, SExpr, SVal, Scopes, Sort, ValEnv};
@@ -347,7 +347,8 @@ impl Prop for C05 {
         let sc = declare_all(ctx, &all_syms)?;
         let mut rng = SplitMix(hash_bytes(tape));
         let used = refeval::symbols_of(ctx, &roots);
-        let (envs, _) = assignments(ctx, &used, &mut rng, 10, 8);
+        let dict = crate::props::c01::dictionary(ctx, &roots);
+        let (envs, _) = crate::props::c01::assignments_with(ctx, &used, &mut rng, 10, 8, &dict);
 
         let bool_roots: Vec<ExprRef> = roots.iter().copied().filter(|r| r.get_bv_type(ctx) == Some(1)).collect();
         let (label, cmd, terms): (&str, SmtCommand, Vec<ExprRef>) = match kind {
